@@ -24,4 +24,20 @@ theorem lsh_parameters : Facts.lshThreshold = some 100 ∧ Facts.lshTrees = some
 theorem lsh_initial_radius : Facts.lshInitialRadius = some "math.Inf(1)" ∧
     Facts.lshPruneCondition = some "item.priority < 0 && -item.priority > radius && node.isLeaf()" := ⟨rfl, rfl⟩
 
+/-- the glue between `Search` and the document store that `Lemmas/CollSearch.lean` models
+    (`candOfEntry`, `listItem`): `consider` reads the document through `getDocument`, measures the
+    distance to the *stored* vector and reports the stored id and metadata; the exact scan skips keys
+    that do not parse; the listing ignores the parse error; both iterations skip the header record,
+    and the sorted one orders the keys with `sort.Strings` (a function of the key set only) -/
+theorem search_glue :
+    Facts.considerGlue = some ["doc, err := c.getDocument(docid)", "pointsSearched++",
+      "distance := c.distance(args.Vector, doc.Vector)",
+      "SearchResult{ID: doc.ID, Metadata: doc.Metadata, Distance: distance}"] ∧
+    Facts.exactScanBody = some ["id, err := strconv.ParseUint(recordID, 10, 64)", "if err != nil { return nil }",
+      "consider(id, math.MaxFloat64)", "return nil"] ∧
+    Facts.listingIdStmt = some ["id, _ := strconv.ParseUint(recordID, 10, 64)"] ∧
+    Facts.iterateShape = some ["IterateRecords: range db.index", "IterateRecords: if recordID == \"\"",
+      "IterateSortedRecords: range db.index", "IterateSortedRecords: if recordID != \"\"",
+      "IterateSortedRecords: sort.Strings(recordIDs)", "IterateSortedRecords: range recordIDs"] := ⟨rfl, rfl, rfl, rfl⟩
+
 end Syzgy.Tie.Search
